@@ -10,6 +10,34 @@ func init() {
 	vHarnesses["VerifC01Void"] = VerifC01Void
 	vHarnesses["VerifC01Mixed"] = VerifC01Mixed
 	vHarnesses["VerifC01Canary"] = VerifC01Canary
+	vHarnesses["VerifC01Deep"] = VerifC01Deep
+}
+
+// vSmallObj: object over keys a,b,c, each absent or a number.
+func vSmallObj() jsonObject {
+	o := jsonObject{}
+	for _, k := range []string{"a", "b", "c"} {
+		if vChoice(2) == 1 {
+			o[k] = vNum()
+		}
+	}
+	return o
+}
+
+// VerifC01Deep: the same small objects placed below a chain of keys / array positions of
+// every length up to DEPTH (path slices of every length and spare capacity).
+func VerifC01Deep() {
+	k := vOptChoice(0x13)
+	depth := vChoice(vParam("DEPTH", 7) + 1)
+	var a, b JsonNode = vSmallObj(), vSmallObj()
+	for i := 0; i < depth; i++ {
+		if vParam("CHAINKINDS", 1) > 1 && vChoice(2) == 1 {
+			a, b = jsonArray{a}, jsonArray{b}
+		} else {
+			a, b = jsonObject{"p": a}, jsonObject{"p": b}
+		}
+	}
+	vC01Check(a, b, k, "c01.deep")
 }
 
 // vC01Check: the property itself.
